@@ -209,8 +209,8 @@ for ops in ALL_OPS:
     else:
         block_obl(12, ops, tier="thorough", timeout=3600)
 block_obl(11, (1,))
-# two restart points + one valid entry need 15 bytes: the restart-array scan of prev and the binary search of seek
-block_obl(15, (2, 5))
+# two restart points + one valid entry need >= 15 bytes: binary search of seek (quick); the restart-array scan of
+# prev at 15 bytes costs > 200 s and is thorough-only
 block_obl(16, (3,))
 block_obl(12, (3,), ikc=1, t=7, tier="thorough", timeout=3600)
 for ops in ALL_OPS[1:]:
@@ -219,7 +219,7 @@ for ops in ALL_OPS[1:]:
 # internal-key comparator with entries that can be valid (>= 11 bytes each)
 for n in (8, 9, 10, 13, 14, 15, 16):
     for ops in ALL_OPS:
-        if (n, ops) not in ((15, (2, 5)), (16, (3,))):
+        if (n, ops) != (16, (3,)):
             block_obl(n, ops, tier="thorough", timeout=3600)
 for n in (12, 14):
     for ops in ((1, 4, 4), (1, 4, 5), (3, 4, 5), (3, 6, 5), (2, 5, 5)):
@@ -315,7 +315,7 @@ META = {
         "write batch (ldb_batch_iterate, recording handler): every rep length 0..20 (quick), ..28 (thorough)",
         "version edit (ldb_edit_import): all inputs of length 0..3 (quick), ..6 (thorough); inputs holding <= 1 complete record: lengths 4, 11, 22 (quick), 2..32 (thorough); <= 2 records: 4..12 (thorough)",
         "block handle: every length 0..20; footer: lengths 0, 1, 8, 40, 47, 48, 49, 56",
-        "block (init, create, first/last/seek/next/prev/second seek, bytewise comparator): init 0,3,4,7; all 8 op sequences at 12 bytes, first+seek at 11 (quick); 8..16 and 20 bytes, 3-op sequences at 12/14, internal-key comparator at 12/19/20 bytes (thorough); seek targets of 2 (bytewise) / 7, 8 (internal) arbitrary bytes",
+        "block (init, create, first/last/seek/next/prev/second seek, bytewise comparator): init 0,3,4,7; first, last, seek, first-next, last-prev at 12 bytes, first at 11, seek at 16 (quick); all 8 op sequences at 8..16 and 20 bytes, 3-op sequences at 12/14, internal-key comparator at 12/19/20 bytes (thorough); seek targets of 2 (bytewise) / 7, 8 (internal) arbitrary bytes",
         "filter block reader: every length 0..16 (quick), ..24 (thorough), arbitrary 64-bit block offset; bloom_match on filters of 0,1,2,3,5 (9 thorough) bytes",
         "snappy: compressed length 0..8 with announced length <= 8 (quick); 2..12 with <= 16, 4/8 with <= 32 (thorough)",
         "log reader (first read_record call, src hook, abstract checksum, recording reporter): every file length 0..8, 14, 15 (quick), 9..24 and all calls until EOF at 7,8,14,15,16,21,22 (thorough)",
